@@ -604,3 +604,180 @@ RULES = {
     "ABSTRACT": Rule("E-abstract", rule_abstract_exponentials, 2, "b**n is abstracted to a symbol only behind raising checks (numeric base, exponent exactly n)", mut_abstract_exponentials),
     "KAUERS": Rule("E-kauers", rule_kauers, 3, "the LLL loop returns only a matrix that passed the exact membership test on every row", mut_kauers),
 }
+
+
+# ------------------------------------------------------------------ C05/C08: declared supports match the kind of the family
+BOUNDED = {"Uniform": ("$a", "$b"), "TruncNormal": ("$a", "$b"), "Beta": ("0", "$scale")}
+HALF_LINE = {"Exponential", "Gamma"}
+WHOLE_LINE = {"Normal", "Laplace"}
+
+
+def rule_support_kind(repo: Repo) -> List[Ob]:
+    obs = []
+    base = repo.cls("Distribution", "program/distribution/distribution.py")
+    for cls in repo.subclasses(base):
+        disc = cls.methods.get("is_discrete")
+        sup = cls.methods.get("get_support")
+        if disc is None or sup is None:
+            raise AnalysisError(f"{cls.name} lacks is_discrete/get_support")
+        dr = [r.value for r in walk_no_nested(disc.node) if isinstance(r, ast.Return)]
+        if len(dr) != 1 or not isinstance(dr[0], ast.Constant) or not isinstance(dr[0].value, bool):
+            raise AnalysisError(f"{cls.name}.is_discrete is not a constant")
+        discrete = dr[0].value
+        rets = [r.value for r in walk_no_nested(sup.node) if isinstance(r, ast.Return)]
+        key = f"{cls.relpath}::{cls.name}.get_support::kind"
+        if discrete:
+            bad = [r for r in rets if any(isinstance(x, ast.Tuple) for x in ast.walk(r))]
+            obs.append(Ob("A4-support-kind", key, cls.relpath, sup.node.lineno, sup.qualname, not bad,
+                          "discrete family: support is an enumeration of values" if not bad else "a discrete family reports an interval"))
+            continue
+        ok = bool(rets) and all(isinstance(r, ast.Set) and r.elts and all(isinstance(e, ast.Tuple) and len(e.elts) == 2 for e in r.elts) for r in rets)
+        obs.append(Ob("A4-support-kind", key, cls.relpath, sup.node.lineno, sup.qualname, ok,
+                      "continuous family: support is reported as (lower, upper) intervals, which type inference refuses to treat as finitely many values" if ok else
+                      f"continuous family {cls.name} reports `{src(rets[0]) if rets else None}`: plain values instead of an interval make the variable look finitely valued"))
+        if not ok:
+            continue
+        lo, hi = rets[0].elts[0].elts
+        selfn = sup.params()[0]
+
+        def canon(e):
+            if is_self_attr(e, None, selfn):
+                return "$" + e.attr
+            s = src(e)
+            return {"Zero()": "0", "zero": "0", "0": "0", "-oo": "-oo", "oo": "oo", "One()": "1"}.get(s, s)
+        got = (canon(lo), canon(hi))
+        if cls.name in BOUNDED:
+            want = BOUNDED[cls.name]
+        elif cls.name in HALF_LINE:
+            want = ("0", "oo")
+        elif cls.name in WHOLE_LINE:
+            want = ("-oo", "oo")
+        else:
+            obs.append(Ob("A4-support-kind", f"{cls.relpath}::{cls.name}.get_support::bounds", cls.relpath, sup.node.lineno, sup.qualname, False,
+                          f"continuous family {cls.name} has no reviewed support bounds"))
+            continue
+        obs.append(Ob("A4-support-kind", f"{cls.relpath}::{cls.name}.get_support::bounds", cls.relpath, sup.node.lineno, sup.qualname, got == want,
+                      f"support interval is ({want[0]}, {want[1]})" if got == want else f"support interval is ({got[0]}, {got[1]}), the family lives on ({want[0]}, {want[1]})"))
+    return obs
+
+
+def mut_support_kind(repo: Repo) -> List[Mutant]:
+    out = []
+
+    def endpoints(tree):
+        fn = find_def(tree, "TruncNormal.get_support")
+        for n in ast.walk(fn):
+            if isinstance(n, ast.Return) and isinstance(n.value, ast.Set) and isinstance(n.value.elts[0], ast.Tuple):
+                n.value.elts = list(n.value.elts[0].elts)
+                return True
+        return False
+    ov = mutate_module(repo, "program/distribution/truncated_normal.py", endpoints)
+    if ov:
+        out.append(Mutant("interval-as-two-values", ov, "fire", "TruncNormal.get_support::kind", control=True))
+
+    def swapped(tree):
+        fn = find_def(tree, "Uniform.get_support")
+        for n in ast.walk(fn):
+            if isinstance(n, ast.Tuple) and len(n.elts) == 2:
+                n.elts.reverse()
+                return True
+        return False
+    ov = mutate_module(repo, "program/distribution/uniform.py", swapped)
+    if ov:
+        out.append(Mutant("bounds-swapped", ov, "fire", "Uniform.get_support::bounds"))
+
+    def beta_unit(tree):
+        fn = find_def(tree, "Beta.get_support")
+        for n in ast.walk(fn):
+            if isinstance(n, ast.Tuple) and len(n.elts) == 2:
+                n.elts[1] = ast.parse("One()").body[0].value
+                return True
+        return False
+    ov = mutate_module(repo, "program/distribution/beta.py", beta_unit)
+    if ov:
+        out.append(Mutant("beta-support-ignores-scale", ov, "fire", "Beta.get_support::bounds"))
+    return out
+
+
+# ------------------------------------------------------------------ C05: fixed-point bookkeeping of the typer
+def rule_typer_fixpoint(repo: Repo) -> List[Ob]:
+    obs = []
+    rp = "type_inference/finite_fixed_point_typer.py"
+    cls = repo.cls("FiniteFixedPointTyper", rp)
+    n = 0
+    for m in cls.all_methods:
+        if m.name == "_initialize_state":
+            continue  # runs before the first pass; every Status it creates starts with has_changed=True
+        for blk_owner in walk_no_nested(m.node):
+            for field in ("body", "orelse"):
+                blk = getattr(blk_owner, field, None)
+                if not isinstance(blk, list):
+                    continue
+                muts = []
+                for st in blk:
+                    if isinstance(st, ast.Assign) and any(isinstance(t, ast.Attribute) and t.attr == "has_failed" for t in st.targets) and isinstance(st.value, ast.Constant) and st.value.value is True:
+                        muts.append(st)
+                    if isinstance(st, ast.AugAssign) and isinstance(st.target, ast.Attribute) and st.target.attr == "values":
+                        muts.append(st)
+                for mu in muts:
+                    n += 1
+                    tgt = mu.targets[0] if isinstance(mu, ast.Assign) else mu.target
+                    owner = src(tgt.value)
+                    flags = [st for st in blk if isinstance(st, ast.Assign) and any(isinstance(t, ast.Attribute) and t.attr == "has_changed" and src(t.value) == owner for t in st.targets)]
+                    ok = bool(flags) and all(isinstance(f.value, ast.Constant) and f.value.value is True for f in flags)
+                    obs.append(Ob("E-typer-fixpoint", f"{rp}::{m.qualname}::changed-after::{'fail' if isinstance(mu, ast.Assign) else 'grow'}", rp, mu.lineno, m.qualname, ok,
+                                  f"`{src(mu)[:50]}` is announced with has_changed = True, so the fixed-point loop makes another pass" if ok else
+                                  f"`{src(mu)[:50]}` changes the state of a variable without has_changed = True: readers of the variable that were evaluated earlier in the pass keep their partial value sets and are typed finite"))
+    if n < 2:
+        raise AnalysisError("typer: state mutations not found")
+    # types are extracted only after the fixed point was reached
+    inf = cls.methods.get("infer_types")
+    c = cfg_of(inf.node)
+    rets = [r for r in walk_no_nested(inf.node) if isinstance(r, ast.Return)]
+    whiles = [t for t in c.nodes if t.kind == "test" and t.label == "while" and "_fixedpoint_reached" in src(t.ast)]
+    ok = bool(rets) and bool(whiles)
+    if ok:
+        w = whiles[-1]
+        neg = isinstance(w.ast, ast.UnaryOp) and isinstance(w.ast.op, ast.Not)
+        rn = node_for(c, rets[-1])
+        ok = neg and c.dominates(w, rn) and not any(isinstance(x, ast.Break) for x in ast.walk(w.stmt))
+    obs.append(Ob("E-typer-fixpoint", f"{rp}::FiniteFixedPointTyper.infer_types::exit", rp, inf.node.lineno, inf.qualname, ok,
+                  "types are extracted only after `while not fixedpoint_reached` has exited normally" if ok else "types can be extracted before the fixed point is reached"))
+    fr = cls.methods.get("_fixedpoint_reached")
+    s = src(fr.node) if fr else ""
+    ok = "all(" in s and "not s.has_changed" in s.replace("status", "s") or "not any(" in s
+    obs.append(Ob("E-typer-fixpoint", f"{rp}::FiniteFixedPointTyper._fixedpoint_reached::all", rp, fr.node.lineno if fr else 0, "FiniteFixedPointTyper._fixedpoint_reached", ok,
+                  "the fixed point is reached only when no variable changed in the last pass" if ok else "fixed-point test is not `all(not s.has_changed ...)`"))
+    return obs
+
+
+def mut_typer_fixpoint(repo: Repo) -> List[Mutant]:
+    out = []
+    rp = "type_inference/finite_fixed_point_typer.py"
+
+    def quiet_fail(tree):
+        fn = find_def(tree, "FiniteFixedPointTyper._fail_variable")
+        for n in ast.walk(fn):
+            if isinstance(n, ast.Assign) and "has_changed" in src(n.targets[0]):
+                n.value = ast.Constant(value=False)
+                return True
+        return False
+    ov = mutate_module(repo, rp, quiet_fail)
+    if ov:
+        out.append(Mutant("failure-not-announced", ov, "fire", "_fail_variable::changed-after::fail", control=True))
+
+    def any_fix(tree):
+        fn = find_def(tree, "FiniteFixedPointTyper._fixedpoint_reached")
+        for n in ast.walk(fn):
+            if isinstance(n, ast.Call) and call_name(n) == "all":
+                n.func = ast.Name(id="any", ctx=ast.Load())
+                return True
+        return False
+    ov = mutate_module(repo, rp, any_fix)
+    if ov:
+        out.append(Mutant("fixpoint-if-any-unchanged", ov, "fire", "_fixedpoint_reached::all"))
+    return out
+
+
+RULES["SUPPORTKIND"] = Rule("A4-support-kind", rule_support_kind, 10, "continuous families report interval supports with the family's bounds, discrete ones enumerations", mut_support_kind)
+RULES["TYPERFIX"] = Rule("E-typer-fixpoint", rule_typer_fixpoint, 4, "every state change of the typer is announced by has_changed; types are extracted only at the fixed point", mut_typer_fixpoint)
